@@ -42,6 +42,75 @@ type paragraphXML struct {
 	BookmarkStart []bookmarkXML     `xml:"bookmarkStart"`
 }
 
+// UnmarshalXML decodes a paragraph child by child so that the runs nested in
+// inline containers (w:hyperlink, w:ins, w:moveTo, w:smartTag, w:customXml,
+// w:fldSimple, w:sdt/w:sdtContent) are collected into Runs together with the
+// paragraph's direct runs, in document order. Deleted and moved-away content
+// (w:del, w:moveFrom) is not part of the paragraph's text.
+func (p *paragraphXML) UnmarshalXML(d *xml.Decoder, start xml.StartElement) error {
+	p.XMLName = start.Name
+	depth := 0     // open inline containers
+	linkDepth := 0 // depth at which the innermost open w:hyperlink was entered
+	for {
+		tok, err := d.Token()
+		if err != nil {
+			return err
+		}
+		switch t := tok.(type) {
+		case xml.StartElement:
+			switch t.Name.Local {
+			case "pPr":
+				if depth == 0 {
+					err = d.DecodeElement(&p.Properties, &t)
+				} else {
+					err = d.Skip()
+				}
+			case "r":
+				var v runXML
+				if err = d.DecodeElement(&v, &t); err == nil {
+					p.Runs = append(p.Runs, v)
+					if linkDepth > 0 {
+						h := &p.Hyperlinks[len(p.Hyperlinks)-1]
+						h.Runs = append(h.Runs, v)
+					}
+				}
+			case "bookmarkStart":
+				var v bookmarkXML
+				if err = d.DecodeElement(&v, &t); err == nil {
+					p.BookmarkStart = append(p.BookmarkStart, v)
+				}
+			case "hyperlink":
+				depth++
+				if linkDepth == 0 {
+					var h hyperlinkXML
+					for _, a := range t.Attr {
+						if a.Name.Local == "id" {
+							h.ID = a.Value
+						}
+					}
+					p.Hyperlinks = append(p.Hyperlinks, h)
+					linkDepth = depth
+				}
+			case "ins", "moveTo", "smartTag", "customXml", "fldSimple", "sdt", "sdtContent":
+				depth++
+			default:
+				err = d.Skip()
+			}
+			if err != nil {
+				return err
+			}
+		case xml.EndElement:
+			if depth == 0 {
+				return nil
+			}
+			if depth == linkDepth {
+				linkDepth = 0
+			}
+			depth--
+		}
+	}
+}
+
 // paragraphPropsXML represents paragraph properties (<w:pPr>).
 type paragraphPropsXML struct {
 	Style         styleRefXML       `xml:"pStyle"`
